@@ -330,6 +330,10 @@ func (d *Document) addFootnoteOrEndnote(text string, noteText string, noteType F
 
 // AddFootnoteToRun 在现有Run中添加脚注引用
 func (d *Document) AddFootnoteToRun(run *Run, footnoteText string) error {
+	if run == nil {
+		return fmt.Errorf("添加脚注失败: run不能为空")
+	}
+
 	manager := d.getFootnoteManager()
 	d.ensureFootnoteInitialized(FootnoteTypeFootnote)
 
@@ -590,28 +594,28 @@ func (d *Document) updateEndnotesFile() {
 	d.parts["word/endnotes.xml"] = append(xmlDeclaration, endnotesXML...)
 }
 
-// addFootnoteRelationship 添加脚注关系
+// addFootnoteRelationship 添加脚注关系（属于主文档部件 word/_rels/document.xml.rels，目标相对于 word/）
 func (d *Document) addFootnoteRelationship() {
-	relationshipID := fmt.Sprintf("rId%d", len(d.relationships.Relationships)+1)
+	relationshipID := d.nextDocumentRelationshipID()
 
 	relationship := Relationship{
 		ID:     relationshipID,
 		Type:   "http://schemas.openxmlformats.org/officeDocument/2006/relationships/footnotes",
 		Target: "footnotes.xml",
 	}
-	d.relationships.Relationships = append(d.relationships.Relationships, relationship)
+	d.documentRelationships.Relationships = append(d.documentRelationships.Relationships, relationship)
 }
 
-// addEndnoteRelationship 添加尾注关系
+// addEndnoteRelationship 添加尾注关系（属于主文档部件 word/_rels/document.xml.rels，目标相对于 word/）
 func (d *Document) addEndnoteRelationship() {
-	relationshipID := fmt.Sprintf("rId%d", len(d.relationships.Relationships)+1)
+	relationshipID := d.nextDocumentRelationshipID()
 
 	relationship := Relationship{
 		ID:     relationshipID,
 		Type:   "http://schemas.openxmlformats.org/officeDocument/2006/relationships/endnotes",
 		Target: "endnotes.xml",
 	}
-	d.relationships.Relationships = append(d.relationships.Relationships, relationship)
+	d.documentRelationships.Relationships = append(d.documentRelationships.Relationships, relationship)
 }
 
 // GetFootnoteCount 获取脚注数量
@@ -799,14 +803,14 @@ func (d *Document) saveSettings(settings *Settings) error {
 	return nil
 }
 
-// addSettingsRelationship 添加设置文件关系
+// addSettingsRelationship 添加设置文件关系（属于主文档部件 word/_rels/document.xml.rels，目标相对于 word/）
 func (d *Document) addSettingsRelationship() {
-	relationshipID := fmt.Sprintf("rId%d", len(d.relationships.Relationships)+1)
+	relationshipID := d.nextDocumentRelationshipID()
 
 	relationship := Relationship{
 		ID:     relationshipID,
 		Type:   "http://schemas.openxmlformats.org/officeDocument/2006/relationships/settings",
-		Target: "word/settings.xml",
+		Target: "settings.xml",
 	}
-	d.relationships.Relationships = append(d.relationships.Relationships, relationship)
+	d.documentRelationships.Relationships = append(d.documentRelationships.Relationships, relationship)
 }
